@@ -47,6 +47,12 @@ def _routes():
         'add-empty': lambda A, CB: A + CB(),
         'add-right': lambda A, CB: A + CB('0b1'),
         'add-left-longer': lambda A, CB: CB('0b101010') + A,
+        'empty-plus': lambda A, CB: CB() + A,
+        'short-plus': lambda A, CB: CB('0b1') + A,
+        'radd-empty': lambda A, CB: A.__radd__(CB()),
+        'plus-empty-str': lambda A, CB: A + '',
+        'empty-str-plus': lambda A, CB: '' + A,
+        'mul-empty-plus': lambda A, CB: (CB('0b1') * 0) + A,
         'radd-str': lambda A, CB: '0b1' + A,
         'mul1': lambda A, CB: A * 1,
         'rshift0': lambda A, CB: A >> 0,
@@ -295,7 +301,7 @@ def conditions(tier):
                         add(f'C04.pair[{ca}->{cb},{route},{mname},n={n}]', h_pair(ca, cb, route, mname, n, 'symbolic'),
                             f'all {n}-bit contents, all stream positions; route {route}; mutation {mname}', route=route, mutation=mname, source='symbolic')
         for source in ('string', 'fromstring', 'cached-twice'):
-            for route in (['auto', 'bits-kw', 'copy()', 'slice-all', 'prop-assign-bits', 'tobitarray-back', 'add-empty'] if q else routes):
+            for route in (['auto', 'bits-kw', 'copy()', 'slice-all', 'prop-assign-bits', 'tobitarray-back', 'add-empty', 'empty-plus', 'radd-empty'] if q else routes):
                 for mname in (['invert', 'append'] if q else ['invert', 'append', 'clear', 'overwrite', 'setitem']):
                     add(f'C04.cache[{ca},{source},{route},{mname}]', h_pair(ca, 'BitArray', route, mname, 4, source),
                         f'object built from a concrete string through the live parse cache ({source}); route {route}; mutation {mname}', route=route, mutation=mname, source=source)
